@@ -89,11 +89,11 @@ func genC27(seed int64, tier string, emit func(run.Case)) {
 		for _, p := range pads {
 			add(c27In{Kind: "fit-grid", Shape: t, PX: p[0], PY: p[1], Dense: thorough})
 		}
-		nr := tierN(tier, 2, 20)
+		nr := tierN(tier, 2, 60)
 		for i := 0; i < nr; i++ {
-			add(c27In{Kind: "fit-rand", Shape: t, Seed: r.Int63(), N: tierN(tier, 12000, 50000)})
+			add(c27In{Kind: "fit-rand", Shape: t, Seed: r.Int63(), N: tierN(tier, 12000, 100000)})
 		}
-		nt := tierN(tier, 2, 40)
+		nt := tierN(tier, 2, 160)
 		for i := 0; i < nt; i++ {
 			add(c27In{Kind: "trace", Shape: t, Seed: r.Int63(), N: 25, Ang: 720})
 		}
@@ -659,18 +659,14 @@ func c27Trace(res *run.Result, vs *c27Viols, in c27In) {
 			modeName := []string{"orthogonal", "centre-aimed", "oblique", "oblique"}[mode]
 			first := hits[0]
 			// trigger classes, all decided on our own outline:
-			//   vertex:    the first crossing is (within 0.001 px) a vertex of the outline path
-			//   touching:  the outline touches the box exactly at the border point (first crossing at r)
+			//   vertex:    the first crossing is (within 0.01 px) a vertex of the outline path
 			//   otherwise the kind of outline primitive the ray crosses first (straight segment,
 			//   Bézier curve, ellipse) — lib/geo has one intersection routine per kind
 			class := map[byte]string{'L': "first-crossing-on-straight-segment", 'C': "first-crossing-on-bezier-curve", 'E': "first-crossing-on-ellipse"}[first.k]
-			if first.t < 0.01 {
-				class = "outline-touches-box-at-border-point"
-			}
 			fp := c27Pt{r.x + dir.x*first.t, r.y + dir.y*first.t}
 			for _, pl := range polys {
 				for _, v := range pl.vtx {
-					if math.Hypot(v.x-fp.x, v.y-fp.y) < 1e-3 {
+					if math.Hypot(v.x-fp.x, v.y-fp.y) < 0.01 {
 						// lib/geo.IntersectionPoint accepts s,t in the closed interval [0,1]
 						// computed in floating point: a ray through a vertex can miss both pieces
 						class = "first-crossing-at-outline-vertex"
@@ -688,7 +684,7 @@ func c27Trace(res *run.Result, vs *c27Viols, in c27In) {
 				if p.x == r.x {
 					ext = h
 				}
-				if first.t > ext {
+				if first.t > ext-0.01 {
 					class = "crossing-beyond-extension"
 				}
 				vs.addMag("C27.trace-off-outline", "C27.trace-off-outline:"+class, desc(), d)
